@@ -138,6 +138,28 @@ fn compare_values(a: &Value, b: &Value) -> Ordering {
     }
 }
 
+/// Sends rows to the sink as chunks of at most `DEFAULT_CHUNK_SIZE` rows.
+fn emit_rows_in_chunks(
+    rows: &[Vec<Value>],
+    num_cols: usize,
+    sink: &mut dyn Sink,
+) -> Result<(), OperatorError> {
+    for part in rows.chunks(crate::execution::pipeline::DEFAULT_CHUNK_SIZE) {
+        let mut columns: Vec<ValueVector> = (0..num_cols).map(|_| ValueVector::new()).collect();
+
+        for row in part {
+            for (col_idx, col) in columns.iter_mut().enumerate() {
+                let val = row.get(col_idx).cloned().unwrap_or(Value::Null);
+                col.push(val);
+            }
+        }
+
+        sink.consume(DataChunk::new(columns))?;
+    }
+
+    Ok(())
+}
+
 impl PushOperator for SortPushOperator {
     fn push(&mut self, chunk: DataChunk, _sink: &mut dyn Sink) -> Result<bool, OperatorError> {
         if chunk.is_empty() {
@@ -182,20 +204,9 @@ impl PushOperator for SortPushOperator {
             return Ok(());
         }
 
-        // Build output chunk from sorted rows
-        let mut columns: Vec<ValueVector> = (0..num_cols).map(|_| ValueVector::new()).collect();
-
-        for row in &self.buffer {
-            for (col_idx, col) in columns.iter_mut().enumerate() {
-                let val = row.get(col_idx).cloned().unwrap_or(Value::Null);
-                col.push(val);
-            }
-        }
-
-        let chunk = DataChunk::new(columns);
-        sink.consume(chunk)?;
-
-        Ok(())
+        // Emit the sorted rows in chunks of the default size: downstream operators address
+        // the rows of a chunk through 16-bit selection vectors.
+        emit_rows_in_chunks(&self.buffer, num_cols, sink)
     }
 
     fn preferred_chunk_size(&self) -> ChunkSizeHint {
@@ -390,20 +401,8 @@ impl PushOperator for SpillableSortPushOperator {
             return Ok(());
         }
 
-        // Build output chunk from sorted rows
-        let mut columns: Vec<ValueVector> = (0..num_cols).map(|_| ValueVector::new()).collect();
-
-        for row in &sorted_rows {
-            for (col_idx, col) in columns.iter_mut().enumerate() {
-                let val = row.get(col_idx).cloned().unwrap_or(Value::Null);
-                col.push(val);
-            }
-        }
-
-        let chunk = DataChunk::new(columns);
-        sink.consume(chunk)?;
-
-        Ok(())
+        // Emit the sorted rows in chunks of the default size
+        emit_rows_in_chunks(&sorted_rows, num_cols, sink)
     }
 
     fn preferred_chunk_size(&self) -> ChunkSizeHint {
